@@ -81,3 +81,38 @@ def ctxOf (mt : Str) (f : Format) : Ctx :=
 def unmarshalCtx (O : Oracle) (c : Ctx) : Res Format := unmarshalKind O (select c.codec c.clock c.pt) c
 
 end Rtsp.Sdp
+
+namespace Rtsp.Sdp
+
+/-- A media inside the quantifier of C05. -/
+structure ValidMedia (O : Oracle) (m : Media) : Prop where
+  /-- the media types the `m=` parser accepts; one token -/
+  type_ok : mediaTypeOk m.typ = true
+  type_chars : ∀ c ∈ m.typ, isSpace c = false ∧ isAscii c = true
+  /-- media ids are alphanumeric (the parser rejects others) -/
+  id_alnum : ∀ c ∈ m.id, isAlnum c = true
+  /-- the MIKEY message is one that `mikey.Message.Unmarshal` accepts and re-encodes identically -/
+  keymgmt_ok : ∀ k, m.keyMgmt = some k → O.mikey k = some k
+  /-- the control attribute is one line of ASCII -/
+  control_ok : ∀ c ∈ m.control, c ≠ 10 ∧ c ≠ 13 ∧ isAscii c = true
+  formats_ne : m.formats ≠ []
+  formats_ok : ∀ f ∈ m.formats, ValidFormat O m.typ f
+  /-- the formats of a media have distinct payload types -/
+  pts_distinct : m.formats.Pairwise fun a b => a.pt ≠ b.pt
+
+/-- A session description inside the quantifier of C05. -/
+structure ValidSession (O : Oracle) (s : Session) : Prop where
+  /-- the title is one line and is not the single blank that encodes "no title" -/
+  title_ok : ∀ c ∈ s.title, c ≠ 10 ∧ c ≠ 13
+  title_not_blank : s.title ≠ [32]
+  keymgmt_ok : ∀ k, s.keyMgmt = some k → O.mikey k = some k
+  medias_ne : s.medias ≠ []
+  medias_ok : ∀ m ∈ s.medias, ValidMedia O m
+  /-- media ids: none, or all present and distinct -/
+  ids : (∀ m ∈ s.medias, m.id = []) ∨ ((∀ m ∈ s.medias, m.id ≠ []) ∧ s.medias.Pairwise fun a b => a.id ≠ b.id)
+  /-- at least one media is not a back channel -/
+  not_all_back : ∃ m ∈ s.medias, m.backChannel = false
+  /-- FEC groups are non-empty lists of ids of medias of the session -/
+  fec_ok : ∀ g ∈ s.fecGroups, g ≠ [] ∧ ∀ id ∈ g, (∀ c ∈ id, isAlnum c = true) ∧ ∃ m ∈ s.medias, m.id = id
+
+end Rtsp.Sdp
